@@ -64,7 +64,22 @@ package harfbuzz
 //@   modifies unspecified
 //@ trusted Font.GlyphExtents
 //@   modifies unspecified
-//@ trusted Font.ExtentsForDirection
+// ExtentsForDirection (C12, line bounds): for a vertical direction and a face without vertical extents, the fallback
+// is the em box in ALREADY SCALED units: ascender = XScale/2, descender = ascender - XScale, no line gap
+// (floating point treated as real numbers).
+//@ opaque hasVExtents(f *font.Face) bool
+//@ trusted std:font.Face.FontVExtents
+//@   ensures [outcome] result1 == hasVExtents(f)
+//@   modifies nothing
+//@ trusted std:font.mvar.getVar
+//@   modifies nothing
+//@ trusted std:math.Abs
+//@   params x
+//@   modifies nothing
+//@ func Font.ExtentsForDirection C12
+//@   mode int
+//@   requires [font] f != nil && f.face != nil
+//@   ensures [vertical-em-box-fallback] implies(!direction.isHorizontal() && !hasVExtents(f.face), result.Ascender == float32(f.XScale)*0.5 && result.Descender == result.Ascender-float32(f.XScale) && result.LineGap == 0)
 //@   modifies nothing
 //
 // ---------------------------------------------------------------------------------------------
